@@ -11,6 +11,8 @@ tallies) on symbolic whole bundles.  For a bundle tag `X`:
   byp_*   = the same for the bypass gap between two ducts.
 -/
 import Dassh.Gen.C01
+import Dassh.Gen.C01Roles
+import Dassh.Gen.C01All
 import Mathlib.Algebra.Order.Field.Basic
 import Mathlib.Tactic.FieldSimp
 import Mathlib.Tactic.Ring
@@ -140,5 +142,55 @@ set_option maxHeartbeats 4000000 in
 c01_byp_class n2d2
 set_option maxHeartbeats 4000000 in
 c01_byp_class n2d2ca
+
+/-! ### every ring count
+
+The traced whole-bundle theorems above are for 7 and 19 pins.  For every ring count the statement is assembled from
+* `Dassh.Exchange.bundle_conservation` (Lemmas/Exchange.lean): for ANY tables with a symmetric neighbour relation and a
+  permutation donor map, and ANY pair coefficients that are symmetric in the two cell types, the enthalpy-flow rise of all
+  cells equals the sum of their sources (conduction, mixing and swirl cancel);
+* the kernel-decided certificates of the tables the running code builds for `n_ring = 2..20` (Gen/C08T*.lean), instantiated
+  in Gen/C01All.lean (`exch_n<n>_cw/ccw`);
+* `Dassh.Gen.C01Roles.role_*` (regenerated on every run): multiplied by the cell's heat-capacity flow, every traced
+  neighbour weight of every neighbour-type class IS the symmetric pair coefficient `g e a b` of Lemmas/BundleForm.lean,
+  plus the one swirl constant for the donor role;
+* `classCert` (C08, shared with C04): every cell of those tables belongs to one of the traced classes.
+-/
+
+section every_ring_count
+open Finset Dassh.Table Dassh.Exchange Dassh.BundleForm
+
+/-- one of the 100 generated role identities, in terms of `g`: an edge cell next to a corner (class 2-123), its edge
+neighbour that is also its swirl donor -/
+theorem c01_role_example (e : Dassh.Gen.C04.Env K) (hn : NZ e) (hsw : e.sw_1 = e.sw_2) :
+    mcp e 1 * Dassh.Gen.C04.WTn1_int_2_123_std_d1 e = (g e 1 1 + Csw e) * e.dz := by
+  rw [g_11]
+  exact Dassh.Gen.C01Roles.role_int_2_123_std_d1_n1 e hn hsw
+
+/-- **C01 for the tables of `n_ring = 20`** (1141 pins, 2286 coolant subchannels, clockwise wire): with the traced
+energy-form coefficients (`g e a b · dz`, symmetric in the cell types) and swirl constant, the enthalpy-flow rise summed over
+all subchannels equals the sum of the sources - for all temperature fields, all sources and all bundle symbols. -/
+theorem c01_n20 (e : Dassh.Gen.C04.Env K) (hn : NZ e) (T q : Nat → K) :
+    ∑ i ∈ range Dassh.Gen.C08T20.ncool,
+        mcp e (Dassh.Gen.C08T20.tyf i)
+          * (bundleStep Dassh.Gen.C08T20.tyf Dassh.Gen.C08T20.nb (donorN Dassh.Gen.C08T20.nint Dassh.Gen.C08T20.donorCW)
+              (fun a b => g e a b * e.dz) (Csw e * e.dz) (mcp e) T q i - T i)
+      = ∑ i ∈ range Dassh.Gen.C08T20.ncool, q i :=
+  Dassh.Gen.C01All.exch_n20_cw _ (fun a b => by rw [g_symm]) _ _ (mcp_ne_zero e hn) T q
+
+/-- the same for the counter-clockwise wire and a mid-size bundle (`n_ring = 9`, 217 pins) -/
+theorem c01_n9_ccw (e : Dassh.Gen.C04.Env K) (hn : NZ e) (T q : Nat → K) :
+    ∑ i ∈ range Dassh.Gen.C08T9.ncool,
+        mcp e (Dassh.Gen.C08T9.tyf i)
+          * (bundleStep Dassh.Gen.C08T9.tyf Dassh.Gen.C08T9.nb (donorN Dassh.Gen.C08T9.nint Dassh.Gen.C08T9.donorCCW)
+              (fun a b => g e a b * e.dz) (Csw e * e.dz) (mcp e) T q i - T i)
+      = ∑ i ∈ range Dassh.Gen.C08T9.ncool, q i :=
+  Dassh.Gen.C01All.exch_n9_ccw _ (fun a b => by rw [g_symm]) _ _ (mcp_ne_zero e hn) T q
+
+/-- non-vacuity: the hypotheses can be met (all symbols one) -/
+example : NZ (⟨1,1,1,1,1,1,1,1,1,1,1,1,1,1,1,1,1,1,1,1,1,1,1,1,1,1,1,1,1,1,1,1,1,1,1,1,1,1,1,1,1,1⟩ : Dassh.Gen.C04.Env ℚ) := by
+  constructor <;> norm_num
+
+end every_ring_count
 
 end Dassh.Props.C01
